@@ -97,6 +97,14 @@ def build_matrix(extended=False):
     cells.append({"kind": "plugin-accepted", "cmd": "FuzzyNot", "plugin": True})
     cells.append({"kind": "plugin-accepted", "cmd": "MySum", "plugin": True})
     cells.append({"kind": "unselected-sibling-library", "cmd": "OnlyInX", "plugin": True})
+    cells.append({"kind": "plugin-generic-output", "cmd": "Sum", "plugin": True})
+    cells.append({"kind": "plugin-generic-output", "cmd": "Copy", "plugin": True})
+    cells.append({"kind": "plugin-accepted", "cmd": "SubDataOut", "plugin": True})
+    # the same faults in a file written in the EEMS 2.0 dialect (commands without result names)
+    from ..refmodel.declarations import V2_NAMES
+    for cmd in sorted(V2_NAMES):
+        if cmd != "EEMSRead":
+            cells.append({"kind": "duplicate-result", "cmd": cmd, "v2": True})
     return cells
 
 
@@ -237,7 +245,7 @@ def apply_fault(nodes, fault):
                 return a[1]
         return None
 
-    if kind in ("unselected-library", "unselected-sibling-library", "plugin-fuzzy-swap"):
+    if kind in ("unselected-library", "unselected-sibling-library", "plugin-fuzzy-swap", "plugin-generic-output"):
         pass      # the fault is in the model / library selection itself
     elif kind == "unknown-command":
         node["cmd"] = "NoSuchCommand"
@@ -279,6 +287,8 @@ def expected_errors(fault):
         return [("CommandDoesNotExist", {"name": "OnlyInX"})]
     if k == "plugin-fuzzy-swap":
         return [("ResultIsFuzzy", {"result": "pf"})]
+    if k == "plugin-generic-output":
+        return [("ResultTypeNotValid", {"result": "go"})]
     if k == "duplicate-result":
         return [("DuplicateResult", {"result": fault["target"]})]
     if k == "missing-param":
@@ -461,9 +471,19 @@ def _generate12_plugin(rng, index, tier, cell):
                 "AMinusB": {"A": rng.choice(nf), "B": "pf"}}[consumer]
         body.append({"name": "tgt2", "cmd": consumer, "args": args})
         fault = {"kind": kind, "target": "tgt2", "cmd": consumer, "producer": "pf", "libraries": PLUGIN_LIBS}
+    elif kind == "plugin-generic-output":
+        body.append({"name": "go", "cmd": "GenericOut", "args": {}})
+        if cell["cmd"] == "Sum":
+            body.append({"name": "tgt2", "cmd": "Sum", "args": {"InFieldNames": [rng.choice(nf), "go"]}})
+        else:
+            body.append({"name": "tgt2", "cmd": "Copy", "args": {"InFieldName": "go"}})
+        fault = {"kind": kind, "target": "tgt2", "cmd": cell["cmd"], "producer": "go", "libraries": PLUGIN_LIBS}
     elif kind == "plugin-accepted":
         if cell["cmd"] == "FuzzyNot":
             body.append({"name": "tgt2", "cmd": "FuzzyNot", "args": {"InFieldName": "pf"}})
+        elif cell["cmd"] == "SubDataOut":
+            body.append({"name": "sd", "cmd": "SubDataOut", "args": {"InFieldName": rng.choice(nf)}})
+            body.append({"name": "tgt2", "cmd": "Sum", "args": {"InFieldNames": ["sd", rng.choice(nf)]}})
         else:
             body.append({"name": "tgt2", "cmd": "MySum", "args": {"InFieldNames": [rng.choice(nf), rng.choice(nf)]}})
     else:
@@ -514,8 +534,19 @@ def _generate12(rng, index, tier):
                                                                                                and not twin),
           # history: what the process loaded before (an EEMS 2.0 style file; a program over other libraries), and
           # whether the client calls run() again after the rejection
-          "preload": rng.choice([None, None, "v2", "v2", "netcdf-program"]), "rerun": rng.random() < 0.35}
+          "preload": rng.choice([None, None, "v2", "v2", "netcdf-program"]), "rerun": rng.random() < 0.35,
+          "api_recovery": rng.random() < 0.4}
     sc.update(sch)
+    if cell.get("v2") and sc["fault"]:
+        # EEMS 2.0 dialect: the translation drops every OutFileName argument, so such files have no file-writing commands
+        kept = [i for i, c in enumerate(model["cmds"]) if c["cmd"] != "EEMSWrite"]
+        model["cmds"] = [model["cmds"][i] for i in kept]
+        for c in model["cmds"]:
+            if c["cmd"] == "PrintVars":
+                c["args"].pop("OutFileName", None)
+        sc["order"] = [kept.index(i) for i in sc["order"] if i in kept]
+        sc["v2_names"] = [sc["fault"]["target"]]
+        sc["route"] = "lib"
     if sc["no_wd"] is False and fault and fault.get("no_wd"):
         sc["no_wd"] = False
     if sc["fault"] and not sc["no_wd"] and sc["fault"].get("target") != "out" and sc["fault"].get("producer") != "out" \
@@ -835,7 +866,7 @@ def run_once(sc, log, res, route, text, csv, fs_faults, actor, exec_faults, libr
 def build_text(sc):
     from .modelsim import program_nodes
     model = sc["model"]
-    nodes = program_nodes(model["cmds"], sc.get("order"), sc.get("argseed", 0))
+    nodes = program_nodes(model["cmds"], sc.get("order"), sc.get("argseed", 0), tuple(sc.get("v2_names") or ()))
     return nodes
 
 
@@ -975,7 +1006,7 @@ def _execute12(sc):
     fault = sc.get("fault")
     log.emit("scenario", prop="C12", fault=({k: v for k, v in fault.items() if k != "value"} if fault else None),
              route=sc["route"])
-    if not _in_domain(model, res, log):
+    if not (sc.get("cell") or {}).get("plugin") and not _in_domain(model, res, log):
         return res
     nodes = build_text(sc)
     info = apply_fault(nodes, fault)
@@ -998,6 +1029,9 @@ def _execute12(sc):
         _judge12(sc, res, log, out, fault, label, paths, "lib")
         if sc.get("rerun") and fault and out.get("program") is not None and out["outcome"] == "raise":
             _rerun12(sc, res, log, out, fault, label)
+        if fault and fault["kind"] in ("missing-param", "extra-param") and sc.get("api_recovery") and not sc.get("new_out_dir") \
+                and not sc.get("v2_names"):
+            _api_recovery12(sc, res, log, csv, fault, label)
         if sc["route"] == "cli" and not sc.get("no_wd"):
             start = log.seq
             out2 = run_once(sc, log, res, "cli", text, csv, [], [], [])
@@ -1082,6 +1116,46 @@ def _rerun12(sc, res, log, first, fault, label):
         res.violate("C12.effects", _sig12("effects side-effect-on-second-run", fault),
                     "second run() of the rejected model with fault [%s]: %d commands executed, %d file changes, %d "
                     "write-opens before the rejection" % (label, execs, fs.mutations - muts0, fs.write_opens - wo0))
+
+
+def _api_recovery12(sc, res, log, csv, fault, label):
+    """API route: the program is built with add_command; the faulted command is rejected, the caller catches the error
+    and adds the corrected command to the SAME program, which must then be accepted and run."""
+    from mpilot.program import Program
+    from mpilot.exceptions import MPilotError
+    model = sc["model"]
+    fs = SimFS(log, res, files={model["table"]["path"]: csv}, dirs=[WORK])
+    order = sc.get("order") or list(range(len(model["cmds"])))
+    log.emit("route", route="api-recovery")
+    with fs, StdCapture(log):
+        try:
+            program = Program(working_dir=WORK)
+            for i in order:
+                c = model["cmds"][i]
+                args = copy.deepcopy(c["args"])
+                cls = program.find_command_class(c["cmd"])
+                if c["name"] == fault["target"]:
+                    bad = copy.deepcopy(args)
+                    if fault["kind"] == "missing-param":
+                        bad.pop(fault["param"], None)
+                    else:
+                        bad["Bogus"] = 1
+                    try:
+                        program.add_command(cls, c["name"], bad)
+                        res.violate("C12.reject", _sig12("reject api-accepted", fault),
+                                    "add_command accepted the command with fault [%s]" % label)
+                        return
+                    except MPilotError:
+                        pass
+                program.add_command(cls, c["name"], args)
+            program.run()
+            res.probe("API: rejected add_command corrected on the same program, then accepted")
+        except SimAbort:
+            return
+        except Exception as exc:  # noqa
+            res.violate("C12.accept", _sig12("accept api-recovery-rejected", fault, exc),
+                        "after add_command rejected fault [%s], adding the corrected command to the same program and "
+                        "running it failed with %s: %s" % (label, type(exc).__name__, str(exc)[:120]))
 
 
 def _fault_label(fault):
